@@ -625,4 +625,15 @@ theorem printed_instant_formats_present :
      ∧ Logrange.Generated.C12.lqlDateFormats.contains (txt "YYYY-MM-DD HH:mm:ss.SSS ZZZZ") = true) := by
   decide +kernel
 
+/-! ## the parser and the filter builder are functions of their text -/
+
+/-- **pkg/lql keeps no mutable package-level state** (regenerated fact: no package-level variable that the package's own code
+writes — assignment, increment, `Store`/`LoadOrStore`/`Delete`/`Lock` … — or whose type is a map / channel / `sync.*` container).
+This is what the model assumes when it reads `ParseLql`, `ParseExpr`, `ParseSource`, `BuildWhereExpFunc`, `BuildTagsExpFunc` as
+functions of the text alone (`parseLql dp text`, the evaluators of C05/C06): with a process-wide memo keyed by a normalised text
+(seeded change C12-17: blanks collapsed, also inside string literals) the pipe created by `CREATE PIPE p … WHERE msg CONTAINS "a  b"`
+would filter with the function built earlier for `"a b"`. The behaviour itself is compared by the harness (section pipes, filter
+pairs built back to back in one process). -/
+theorem filter_builder_is_function_of_text : Logrange.Generated.C12.lqlMutablePackageVars = 0 := by decide
+
 end Logrange.Props.C12
